@@ -135,6 +135,17 @@ fn box(x: int) -> { v: int, tag: str } {
     o.tag = o.tag + "!";
     o
 }
+fn half(x: int) -> float { (x as float) / 2.0 }
+fn grid(n: int) -> [[int]] {
+    let g: [[int]] = [];
+    for i in 0..n {
+        let row = [i, i * i];
+        g.push(row);
+    }
+    g
+}
+let total_f = 0.5;
+fn accumulate(f: float) -> float { total_f = total_f + f; total_f }
 let last: [int] = [0];
 fn remember(x: int) { last = [x]; }
 fn recall() -> int { last[0] }
@@ -150,6 +161,7 @@ type c16Model struct {
 	last    int64
 	lastS   [2]string
 	counter int64
+	totalF  float64
 	log     []int64
 	failed  bool
 	lines   map[string]int
@@ -180,6 +192,19 @@ func wantInt(x int64) func(value.Value) string {
 		}
 		if i.Inner != x {
 			return fmt.Sprintf("returned %d, want %d", i.Inner, x)
+		}
+		return ""
+	}
+}
+
+func wantFloat(x float64) func(value.Value) string {
+	return func(v value.Value) string {
+		fv, ok := v.(value.ValueFloat)
+		if !ok {
+			return fmt.Sprintf("returned %T, want float", v)
+		}
+		if d := fv.Inner - x; d > 1e-9 || d < -1e-9 {
+			return fmt.Sprintf("returned %v, want %v", fv.Inner, x)
 		}
 		return ""
 	}
@@ -250,7 +275,28 @@ func c16GenOp(s *simrt.Sim, m *c16Model, pfault int, force int) c16Op {
 			// handled by the caller: print fault / cancel fault on an ordinary op
 		}
 	}
-	switch pick(33, "op") {
+	switch pick(36, "op") {
+	case 33:
+		x := []int64{0, 1, 7, -3, 100}[pick(5, "arg")]
+		return c16Op{pure: true, reusable: true, fn: "half", args: []value.Value{vInt(x)}, desc: fmt.Sprintf("half(%d)", x), check: wantFloat(float64(x) / 2.0)}
+	case 34:
+		n := []int64{0, 1, 3}[pick(3, "arg")]
+		return c16Op{pure: true, reusable: true, fn: "grid", args: []value.Value{vInt(n)}, desc: fmt.Sprintf("grid(%d)", n), check: func(v value.Value) string {
+			l, ok := v.(value.ValueList)
+			if !ok || l.Values == nil || int64(len(*l.Values)) != n {
+				return fmt.Sprintf("returned %T, want a list of %d rows", v, n)
+			}
+			for i, row := range *l.Values {
+				if msg := wantIntList([]int64{int64(i), int64(i * i)})(*row); msg != "" {
+					return fmt.Sprintf("row %d: %s", i, msg)
+				}
+			}
+			return ""
+		}}
+	case 35:
+		f := []float64{0.25, 1.5, -2.0}[pick(3, "arg")]
+		want := m.totalF + 0.5 + f
+		return c16Op{fn: "accumulate", args: []value.Value{vFloat(f)}, desc: fmt.Sprintf("accumulate(%v)", f), check: wantFloat(want), apply: func(m *c16Model) { m.totalF += f }}
 	case 29:
 		a := []int64{0, 1, 2, 7, 99}[pick(5, "arg")]
 		want := []int64{0, 0, 0}
@@ -679,6 +725,18 @@ func runC16(t *testing.T, spec RunSpec) *Verdict {
 					return // the VM ran something the model knows nothing about
 				}
 				s.Probe("invalid-invocation-rejected")
+			}
+			if !m.failed && s.Choose(10, "idle-wait") == 1 {
+				// waiting when nothing runs returns at once and reports nothing
+				s.SetDeadline("idle-wait-returns", 2*time.Second)
+				num, i := env.vm.Wait()
+				s.ClearDeadline("idle-wait-returns")
+				history = append(history, "Wait() with no call in flight")
+				s.Probe("wait-with-no-core")
+				if i != nil {
+					failNow("wrong-result", "call-result", "idle-wait", fmt.Sprintf("Wait() with no call in flight reported an interrupt of core %d: %s", num, firstLine((*i).Message())))
+					return
+				}
 			}
 			op := c16GenOp(s, m, pfault, spec.P("force_op", -1))
 			reuse := false
